@@ -664,10 +664,19 @@ func (e *Exec) inputsFrom(m Model) map[string]string {
 		m = Model{}
 	}
 	cache := map[int]*Term{}
+	seq := map[string]int{}
 	for _, nv := range e.namedInfo {
+		// key = the name as the native API will ask for it: name, name!1, name!2 ...
+		if nv.Kind != "clock" {
+			n := seq[nv.Name]
+			seq[nv.Name] = n + 1
+			if n > 0 {
+				nv.Name = fmt.Sprintf("%s!%d", nv.Name, n)
+			}
+		}
 		switch nv.Kind {
 		case "bytes", "string":
-			bs := e.env["bytes:"+nv.Name].([]*Term)
+			bs := nv.Bytes
 			b := make([]byte, len(bs))
 			for i, t := range bs {
 				if c := e.tb.Eval(t, m, cache); c != nil && c.Const {
